@@ -55,7 +55,7 @@ def run_case(ctx, Model, case):
             reject = 'IndexError'
         else:
             start = dict(case['offset_source'])
-    check = case.get('check') or ['A', 'B']
+    check = case['check'] if case.get('check') is not None else ['A', 'B']
     want = scripted.ref_solve_t([tuple(p) for p in case['script']], start, check, min_iter=case['min_iter'], max_iter=case['max_iter'],
                                 tol=case['tol'], failures=case['failures'], errors=case['errors'], cfe=case['cfe'],
                                 before_fault=case.get('before_fault'), after_fault=case.get('after_fault'))
@@ -82,7 +82,7 @@ def option_sets(rng, k):
     out = []
     for _ in range(k):
         out.append(dict(tol=rng.choice([0.5, 0.5, 1e-10, 0.0]), failures=rng.choice(['raise', 'ignore']), cfe=rng.choice([True, False]),
-                        errors=rng.choice(['raise', 'raise', 'ignore']), check=rng.choice([None, None, ['A'], ['B']]),
+                        errors=rng.choice(['raise', 'raise', 'ignore']), check=rng.choice([None, None, ['A'], ['B'], ['A', 'A'], ['B', 'A'], []]),
                         t=rng.choice([1, 1, -2, 0, 3, -1]), entry=rng.choice(['solve_t', 'solve_t', 'solve_period'])))
     return out
 
